@@ -765,6 +765,97 @@ def c13_facts(repo, sk, facts, notes):
         and i_split == i_dup + 2)
 # ===== C13 block end =====
 
+# ===== C03 block begin (context registration / cache refresh protocol; add-only, owned by props/c03.py) =====
+def reg_facts(repo, sk, facts, notes):
+    """what ThreadContextManager::register_thread_context / new_thread_context_flag / for_each_thread_context,
+    Spinlock and BackendWorker::_update_active_thread_contexts_cache look like: the flags of the micro-step model
+    Backend/RegProto.v. The memory order of the flag accesses is reported (tcm_flag_store_order) but no fact
+    depends on it: the no-lost-registration clause needs only the order of the steps and the lock (RegProto.v header)."""
+    global MACRO_ARGS
+    inc = os.path.join(repo, 'include', 'quill')
+    p = os.path.join(inc, 'core', 'ThreadContextManager.h')
+    MACRO_ARGS = True
+    try:
+        docs = run_clang('#include "quill/core/ThreadContextManager.h"\n', 'ThreadContextManager', repo)
+        for m in ('register_thread_context', 'new_thread_context_flag', 'for_each_thread_context'):
+            sk['reg_tcm_' + m] = method_skeleton(docs, p, m) or []
+        flag_atomic = re.search(r'\batomic\s*<\s*bool\s*>', field_type(docs, '_new_thread_context_flag')) is not None
+        ps = os.path.join(inc, 'core', 'Spinlock.h')
+        sdocs = run_clang('#include "quill/core/Spinlock.h"\n', 'Spinlock', repo)
+        for m in ('lock', 'unlock'):
+            sk['reg_spinlock_' + m] = method_skeleton(sdocs, ps, m) or []
+        pb = os.path.join(inc, 'backend', 'BackendWorker.h')
+        bdocs = run_clang('#include "quill/backend/BackendWorker.h"\n', 'BackendWorker::_update_active_thread_contexts_cache', repo)
+        sk['reg_be_update_cache'] = method_skeleton(bdocs, pb, '_update_active_thread_contexts_cache') or []
+    finally:
+        MACRO_ARGS = False
+    MOS = r'(?:std::)?memory_order(?:_|::)\w+'
+    def atom(l):
+        m = re.match(r'\s*ATOMIC (.*) (\S+) \[(.*)\]$', l)
+        return (m.group(1).strip(), m.group(2), m.group(3)) if m else None
+    STRONG = ('memory_order_release', 'memory_order_acq_rel', 'memory_order_seq_cst', '')
+    # ---- register_thread_context: the push_back happens while _spinlock is held and before the one flag store
+    rg = sk['reg_tcm_register_thread_context']
+    stm = [(i, l) for i, l in enumerate(rg) if not l.startswith(' ')]
+    i_push = [i for i, l in stm if re.match(r'EXPR _thread_contexts\.(?:push_back|emplace_back)\(\s*thread_context\s*\)$', l)]
+    i_flag = [i for i, l in stm if re.match(r'EXPR _new_thread_context_flag\.store\(\s*true\s*(?:,\s*' + MOS + r'\s*)?\)$', l)
+              or re.match(r'EXPR _new_thread_context_flag\s*=\s*true$', l)]
+    i_lock = [i for i, l in stm if re.match(r'EXPR _spinlock\.lock\(\)$', l) or re.match(r'DECL LockGuard (?:const )?\w+\s*[{(]\s*_spinlock\s*[})];$', l)]
+    i_unlock = [i for i, l in stm if re.match(r'EXPR _spinlock\.unlock\(\)$', l)]
+    known = all(atom(l) or i in i_push + i_flag + i_lock + i_unlock for i, l in enumerate(rg))      # nothing else in the body
+    flag_ops = [a for a in map(atom, rg) if a and a[0].endswith('_new_thread_context_flag')]
+    locked = (len(i_lock) == 1 and len(i_push) == 1 and i_lock[0] < i_push[0] and
+              (not i_unlock or (len(i_unlock) == 1 and i_unlock[0] > i_push[0]
+                                and rg[i_lock[0]].startswith('EXPR'))))
+    if i_lock and rg[i_lock[0]].startswith('EXPR') and not i_unlock:
+        locked = False   # lock() without unlock()
+    facts['tcm_register_append_before_flag'] = bool(
+        flag_atomic and known and locked and len(i_flag) == 1 and i_push[0] < i_flag[0]
+        and len(flag_ops) <= 1 and all(op == 'store' for _, op, _ in flag_ops))
+    mo_store = [mo for _, op, mo in flag_ops if op == 'store']
+    facts['tcm_flag_store_order'] = MO.get((mo_store[0].split(',')[0] or 'seq_cst'), 'Rlx') if len(mo_store) == 1 else ('Sc' if i_flag and not mo_store else 'Rlx')
+    # ---- new_thread_context_flag: 1 = one exchange(false); 2 = if (load) { store(false); return true; } return false;
+    #      3 = one compare_exchange_strong(expected = true, false); 0 = anything else
+    nf = sk['reg_tcm_new_thread_context_flag']
+    F = r'_new_thread_context_flag'
+    ops = [a for a in map(atom, nf) if a]
+    only_flag = all(a[0].endswith(F) for a in ops)
+    shape = 0
+    if (len(nf) == 2 and re.match(r'RET return ' + F + r'\.exchange\(\s*false\s*(?:,\s*' + MOS + r'\s*)?\)$', nf[0]) and [o for _, o, _ in ops] == ['exchange']):
+        shape = 1
+    elif (len(nf) == 6 and re.match(r'IF (?:QUILL_(?:UN)?LIKELY\s*\(\s*)?' + F + r'\.load\(\s*(?:' + MOS + r')?\s*\)\s*\)?$', nf[0])
+          and re.match(r'  EXPR ' + F + r'\.store\(\s*false\s*(?:,\s*' + MOS + r'\s*)?\)$', nf[2])
+          and nf[4] == '  RET return true' and nf[5] == 'RET return false' and [o for _, o, _ in ops] == ['load', 'store']):
+        shape = 2
+    elif (len(nf) == 3 and re.match(r'DECL bool (\w+)\s*(?:=\s*true|\{\s*true\s*\});$', nf[0])
+          and re.match(r'RET return ' + F + r'\.compare_exchange_strong\(\s*\w+\s*,\s*false\s*(?:,\s*' + MOS + r'\s*){0,2}\)$', nf[1])
+          and [o for _, o, _ in ops] == ['compare_exchange_strong']):
+        shape = 3
+    facts['tcm_flag_consume_shape'] = shape if (flag_atomic and only_flag) else 0
+    # ---- for_each_thread_context: the registry is iterated while _spinlock is held
+    fe = sk['reg_tcm_for_each_thread_context']
+    facts['tcm_for_each_under_lock'] = bool(
+        len(fe) >= 2 and re.match(r'DECL LockGuard (?:const )?\w+\s*[{(]\s*_spinlock\s*[})];$', fe[0])
+        and re.match(r'FOR for \(.*:\s*_thread_contexts\)$', fe[1]) and all(l.startswith('  ') for l in fe[2:]))
+    # ---- Spinlock: lock() leaves its loop through an exchange(Locked) with acquire or stronger, unlock() is one
+    #      store(Free) with release or stronger
+    lk = [a for a in map(atom, sk['reg_spinlock_lock']) if a]; ul = [a for a in map(atom, sk['reg_spinlock_unlock']) if a]
+    acq = ('memory_order_acquire', 'memory_order_acq_rel', 'memory_order_seq_cst', '')
+    xs = [a for a in lk if a[1] in ('exchange', 'test_and_set', 'compare_exchange_strong', 'compare_exchange_weak')]
+    facts['spinlock_acquire_release'] = bool(
+        len(xs) == 1 and xs[0][2].split(',')[0] in acq and all(a[1] == 'load' for a in lk if a not in xs)
+        and len(ul) == 1 and ul[0][1] == 'store' and ul[0][2].split(',')[0] in STRONG
+        and any(re.match(r'DOWHILE .*exchange\(\s*State::Locked', l.strip()) for l in sk['reg_spinlock_lock'])
+        and len(sk['reg_spinlock_unlock']) == 2 and re.match(r'EXPR _flag\.store\(\s*State::Free\b', sk['reg_spinlock_unlock'][0]))
+    # ---- _update_active_thread_contexts_cache: the flag is consumed in the condition, the rebuild (clear, then
+    #      for_each_thread_context pushing into the cache) is the whole body of that if
+    uc = sk['reg_be_update_cache']
+    facts['be_cache_rebuild_after_flag_consume'] = bool(
+        len(uc) == 3 and re.match(r'IF (?:QUILL_(?:UN)?LIKELY\s*\(\s*)?_thread_context_manager\.new_thread_context_flag\(\)\s*\)?$', uc[0])
+        and uc[1] == '  EXPR _active_thread_contexts_cache.clear()'
+        and re.match(r'  EXPR _thread_context_manager\.for_each_thread_context\(.*_active_thread_contexts_cache\.(?:push_back|emplace_back)\(\s*thread_context\s*\);\s*\}\s*\)$', uc[2]))
+# ===== C03 block end =====
+
 
 # ===== C19 block begin (JSON sink key/value appends, named-args template scanner; add-only, owned by props/c19.py) =====
 def c19_facts(repo, sk, facts, notes):
@@ -891,6 +982,7 @@ def main():
     c13_facts(repo, sk, facts, notes)   # C13 block
     c19_facts(repo, sk, facts, notes)   # C19 block
     c12_facts(repo, sk, facts, notes)   # C12 block
+    reg_facts(repo, sk, facts, notes)   # C03 block
     txt = emit(sk, facts, notes, os.path.normpath(out))
     if dump:
         for k in sorted(sk):
